@@ -104,6 +104,9 @@ def check_variant(d, props, worker=0, keep_facts=True):
     from . import engine
     fd = extract.facts_dir(repo=d, target=worker_target(worker))
     facts = Facts(fd)
+    lost = list(facts.lib.j.get("skipped") or []) + list(facts.bin.j.get("skipped") or [])
+    if lost:
+        raise extract.CheckerError("the extractor could not read %d function bodies of the variant: %s" % (len(lost), lost[:6]))
     out = {}
     for p in props:
         run, ev, violations, known_hits, lines = engine.run_property(p, "quick", facts, quiet=True, write=False)
